@@ -79,7 +79,7 @@ def _roots_and_patterns(db, chk, m):
         chk.ob("C16.R1-root-selection", "one normal path reaching the result generation", None, where, found=len(runs))
         return
     r = runs[0]
-    rn = next((v for v in r.env.values() if isinstance(v, Frame) and v.base == TR and T.find(v.rows, lambda s: s[0] == "agg" and s[1] == "min")), None)
+    rn = next((v for v in r.env.values() if isinstance(v, Frame) and v.base == TR and T.find(v.rows, lambda s: s[0] == "agg")), None)
     NAME, DEPTH = T.col(TR, "name"), T.col(TR, "depth")
     if not isinstance(rn, Frame):
         chk.ob("C16.R1-root-selection", "root_nodes is a selection of the trace frame", None, where)
